@@ -222,24 +222,37 @@ def make_case(ctx, hostkind, regcodes, shapes, menu, extra_regs=0, opts=False):
     for _ in range(extra_regs):
         lit, pat = rnd.choice(EXTRA_REGS)
         regs.insert(rnd.randint(0, len(regs)), make_reg(rnd, lit, pat, 1 if rnd.random() < 0.15 else 0))
+    # Excluded constructs (known findings): with a failing minifier in the registry the host contains no whitespace
+    # run with a newline and no encoded newline before the failing slot (the error position is computed on the
+    # input buffer after earlier parts of it were rewritten in place)
+    # (a real JS minifier counts as possibly failing: some of its payloads are syntax errors)
+    hasfail = any(r['beh'] in ('fail', 'plainfail') or r['real'] == 'js' for r in regs)
+    lits = [x for x in LITS[hostkind] if not (hasfail and '\n ' in x)]
     parts = []
     for (kind, typ, mt) in shapes:
-        parts.append(dict(lit=B(rnd.choice(LITS[hostkind]))))
+        parts.append(dict(lit=B(rnd.choice(lits))))
         hastype = typ != [0]
         slot = dict(kind=kind, hastype=hastype, type=typ if hastype else [], mt=mt)
         served = predict(regs, expected_type(slot))
         beh = served['beh'] if served else 'absent'
-        if kind in ('dataUriAttr', 'cssDataUri') and beh in ('fail', 'plainfail'):
-            # excluded construct (known finding, pinned witness kept): a failing minifier behind a data URI
+        if kind in ('dataUriAttr', 'cssDataUri') and (beh in ('fail', 'plainfail') or (beh == 'real' and hasfail)):
+            # excluded construct (known finding, pinned witness kept): a failing minifier behind a data URI,
+            # directly or nested inside the real minifier that serves the URI
             served['beh'], served['real'] = 'stub', ''
             beh = 'stub'
-        payload = rnd.choice(payloads_for(kind, lat(typ) if hastype else '', lat(mt), beh))
+        cands = payloads_for(kind, lat(typ) if hastype else '', lat(mt), beh)
+        if hasfail:
+            if kind in ('dataUriAttr', 'cssDataUri'):
+                cands = [c for c in cands if '\n' not in c and '\r' not in c]
+        payload = rnd.choice(cands)
         enc = rnd.choice(['pct', 'b64'])
         quote = rnd.choice(['dq', 'sq'])
         if kind == 'cssDataUri':
             quote = rnd.choice(['dq', 'sq', 'none'])
+            if quote == 'sq' and "'" in payload:
+                quote = 'dq'      # excluded construct (known finding): apostrophe in the result of a single-quoted url()
         parts.append(dict(kind=kind, hastype=hastype, type=slot['type'], payload=B(payload), mt=mt, enc=enc, quote=quote))
-    parts.append(dict(lit=B(rnd.choice(LITS[hostkind]))))
+    parts.append(dict(lit=B(rnd.choice(lits))))
     o = 0
     if opts and hostkind == 'html' and rnd.random() < 0.3:
         o = rnd.randint(1, 31)
